@@ -56,7 +56,8 @@ Step == PreFlight \/ Scan
 (* ------------------------------ P-layer (property C16) on a diagram d and an observation o ------------------------------ *)
 \* o = [attempts : <<[sm,sp,dm,dp,acc]>>, error, order, calls : <<[m, ports : <<..>>]>> (handler invocations, input ports present),
 \*      delivered : <<[m, p, dt, integ, src, srcport]>> (typed values seen on input ports), caps : <<..>>]
-ConnectExact(d, o) == \A k \in 1..Len(o.attempts) : o.attempts[k].acc <=> MayConnect(d, o.attempts[k])
+ConnectExact(d, o) == /\ \A k \in 1..Len(o.attempts) : o.attempts[k].acc <=> MayConnect(d, o.attempts[k])
+                      /\ o.held = d.wires           \* the diagram holds the accepted connections and nothing else (a refused connection leaves no wire behind)
 DeliveredWellTyped(d, o) == \A k \in 1..Len(o.delivered) : LET v == o.delivered[k] IN
                               HasIn(d, v.m, v.p) /\ v.dt = InPort(d, v.m, v.p).dt /\ v.integ >= InPort(d, v.m, v.p).integ
 OutputsChecked(d, o) == /\ ((~o.error /\ ~o.hung) => \A k \in 1..Len(o.calls) : GoodHandler(Mod(d, o.calls[k].m).handler))
